@@ -52,6 +52,27 @@ fn variant_json(v: &Variant) -> Value {
     })
 }
 
+/// `has_impl` follows unconstrained newtypes without a visited set (type_entry.rs, "could be
+/// infinitely recursive"): on a chain of such newtypes that loops (possible before `break_cycles`
+/// ran, or outside the range it was given) the query never returns. The dump reports no impls then.
+fn newtype_chain_loops(ts: &TypeSpace, e: &TypeEntry) -> bool {
+    let mut cur = e;
+    for _ in 0..=ts.id_to_entry.len() {
+        match &cur.details {
+            TypeEntryDetails::Newtype(d)
+                if matches!(d.constraints, TypeEntryNewtypeConstraints::None) =>
+            {
+                match ts.id_to_entry.get(&d.type_id) {
+                    Some(next) => cur = next,
+                    None => return false,
+                }
+            }
+            _ => return false,
+        }
+    }
+    true
+}
+
 fn entry_json(ts: &TypeSpace, e: &TypeEntry) -> Value {
     let impls = [
         ("FromStr", TypeSpaceImpl::FromStr),
@@ -59,7 +80,7 @@ fn entry_json(ts: &TypeSpace, e: &TypeEntry) -> Value {
         ("Default", TypeSpaceImpl::Default),
     ]
     .iter()
-    .filter(|(_, i)| e.has_impl(ts, *i))
+    .filter(|(_, i)| !newtype_chain_loops(ts, e) && e.has_impl(ts, *i))
     .map(|(n, _)| json!(n))
     .collect::<Vec<_>>();
     let mut v = match &e.details {
